@@ -10,11 +10,20 @@ import (
 	"github.com/fatedier/frp/zzverif"
 )
 
-type c10Conn struct{ closed int }
+type c10Conn struct {
+	closed   int
+	closeErr bool // the transport reports an error from Close (reset by the peer, already closed by the stack)
+}
 
 func (c *c10Conn) Read(p []byte) (int, error)         { return 0, io.EOF }
 func (c *c10Conn) Write(p []byte) (int, error)        { return len(p), nil }
-func (c *c10Conn) Close() error                       { c.closed++; return nil }
+func (c *c10Conn) Close() error {
+	c.closed++
+	if c.closeErr {
+		return io.ErrClosedPipe
+	}
+	return nil
+}
 func (c *c10Conn) LocalAddr() net.Addr                { return nil }
 func (c *c10Conn) RemoteAddr() net.Addr               { return nil }
 func (c *c10Conn) SetDeadline(t time.Time) error      { return nil }
@@ -26,7 +35,7 @@ func (c *c10Conn) SetWriteDeadline(t time.Time) error { return nil }
 func VerifC10Wrappers() {
 	times := 1 + zzverif.Choice("closes", 3)
 	kind := zzverif.Choice("wrapper", 3)
-	under := &c10Conn{}
+	under := &c10Conn{closeErr: zzverif.Bool("transportCloseReportsAnError")}
 	cb := 0
 	var w net.Conn
 	switch kind {
